@@ -152,7 +152,9 @@ def holdsC01 (cfg : MCfg) (calls : List CDecl) (journal : List JReq) (obs : Obs)
   -- nil ⇒ everything acknowledged in the chosen partition; WriteErrors[i] = nil ⇔ message i acknowledged
   calls.all (fun c =>
     let r := retOf obs c.id
-    if r == "ok" then cfg.async || c.msgs.all (ackedOn cfg journal)
+    if r == "ok" then cfg.async || c.msgs.all (fun m => ackedOn cfg journal m &&
+      -- C01.ok_means_at_least_once_at_most_maxAttempts, on the log itself
+      (let n := (logOf obs (expectedTP cfg m)).count m.key; decide (1 ≤ n) && decide (n ≤ max cfg.ma 1)))
     else if r.startsWith "werr:" then
       let codes := werrCodes r
       codes.length == c.msgs.length && codes.any (· != "ok") &&
